@@ -71,6 +71,7 @@ func ctxRandIntn(ctx *Context, n int) int {
 	if ctx != nil {
 		src = ctx.RandSrc
 	}
+	verifMeterDraw()
 	return int(Roll(src, IntType(n), 0)) - 1
 }
 
